@@ -4,6 +4,9 @@ import (
 	"encoding/json"
 	"os"
 
+	hdf5 "github.com/scigolib/hdf5"
+	"github.com/scigolib/hdf5/internal/core"
+
 	"github.com/scigolib/hdf5/internal/zzverif/ev"
 	"github.com/scigolib/hdf5/internal/zzverif/hx"
 )
@@ -20,4 +23,40 @@ func dumpScriptIfReplay(c *ev.Ctx, s *hx.Script) {
 	}
 	b, _ := json.MarshalIndent(s, "", " ")
 	_ = os.WriteFile(out, b, 0o644)
+}
+
+type dsMeta struct {
+	dims, chunk []uint64
+	layout      string
+}
+
+// coreHeader reads shape and layout of a dataset through the library's own header parser.
+func coreHeader(f *hdf5.File, ds *hdf5.Dataset) (*dsMeta, error) {
+	hdr, err := core.ReadObjectHeader(f.Reader(), ds.Address(), f.Superblock())
+	if err != nil {
+		return nil, err
+	}
+	info, err := core.ReadDatasetInfo(hdr, f.Superblock())
+	if err != nil {
+		return nil, err
+	}
+	m := &dsMeta{dims: append([]uint64(nil), info.Dataspace.Dimensions...)}
+	switch {
+	case info.Layout.IsChunked():
+		m.layout = "chunked"
+		m.chunk = append([]uint64(nil), info.Layout.ChunkSize...)
+		if len(m.chunk) > len(m.dims) {
+			m.chunk = m.chunk[:len(m.dims)] // reference files carry the element size as an extra dimension
+		}
+		for _, msg := range hdr.Messages {
+			if msg.Type == core.MsgFilterPipeline {
+				m.layout = "chunked+filter"
+			}
+		}
+	case info.Layout.IsCompact():
+		m.layout = "compact"
+	default:
+		m.layout = "contig"
+	}
+	return m, nil
 }
